@@ -77,10 +77,6 @@ def sendObs : List Obs → List (Nat × FStatus)
   | .fs i st :: r => (i, st) :: sendObs r
   | _ :: r => sendObs r
 
-/-- a re-run request the proxy honours: re-match only from an AfterRoute filter, re-choose only from an AfterChooseHost filter -/
-def accepted (p : RPhase) (st : FStatus) : Bool :=
-  (p == .AfterRoute && st == .ReMatchRoute) || (p == .AfterChooseHost && st == .ReChooseHost)
-
 /-- every invocation is of a configured filter, in the phase it is configured for -/
 def phasesOK (c : Cfg) (l : List (Nat × RPhase × Verdict)) : Bool :=
   l.all (fun (i, p, _) => match c.recv[i]? with | some f => f.phase == p | none => false)
